@@ -17,7 +17,7 @@ from .tracecheck import validate
 def main(d: str, n: str, seed: str, tier: str) -> None:
     d = Path(d).resolve()
     t0 = time.time()
-    specs = gen_specs(int(seed), int(n))
+    specs = gen_specs(int(seed), int(n), tier)
     try:
         from .scenarios import scenario_specs
         specs += scenario_specs(tier, d)
